@@ -314,3 +314,51 @@ def pybcj_small_feed_faulty(chain, stream, chunk) -> bool:
         return out != whole
     except Exception:
         return True
+
+
+_PPMD_FEED = r"""
+import struct, sys, pyppmd
+order, mem, chunk, n = (int(x) for x in sys.argv[2:6])
+packed = open(sys.argv[1], "rb").read()
+d = pyppmd.Ppmd7Decoder(order, mem)
+got = len(d.decode(packed, min(chunk, n)))
+k = 0
+while got < n and k < 4 * n + 64:
+    got += len(d.decode(b"\0" if d.needs_input else b"", min(chunk, n - got)))
+    k += 1
+print("done", got)
+"""
+
+
+def pyppmd_small_max_length_crashes(chain, stream, block, chunk) -> bool:
+    """True when pyppmd's decoder, driven directly and alone in a fresh process, dies from a signal when it is
+    given the whole packed stream at once and then asked for `chunk` bytes per call (what py7zr's read loop
+    does under an extraction chunk limit of a few bytes). Classification only."""
+    import signal
+    import subprocess
+    import sys
+    import tempfile
+
+    pp = [c for c in chain if c["f"] == "PPMD"]
+    if not pp or not chunk or any(c["f"] in G.BCJ for c in chain):
+        return False
+    import pyppmd
+
+    members = [stream] if isinstance(stream, (bytes, bytearray)) else list(stream)
+    block = block or (1 << 20)
+    order, size = ppmd_params(pp[0])
+    e = pyppmd.Ppmd7Encoder(order, size)
+    packed = bytearray()
+    for m in members:
+        for i in range(0, len(m), block):
+            packed += e.encode(m[i : i + block])
+    packed += e.flush()
+    n = sum(len(m) for m in members)
+    with tempfile.NamedTemporaryFile(prefix="vf-ppmd-", suffix=".bin") as f:
+        f.write(packed)
+        f.flush()
+        try:
+            p = subprocess.run([sys.executable, "-c", _PPMD_FEED, f.name, str(order), str(size), str(chunk), str(n)], capture_output=True, timeout=600)
+        except subprocess.TimeoutExpired:
+            return False
+    return p.returncode < 0 and -p.returncode in (signal.SIGSEGV, signal.SIGABRT, signal.SIGBUS)
